@@ -327,14 +327,6 @@ impl<'a> crate::fdl::FdlApplication for DpMaster<'a> {
                         tx = tx_returned;
 
                         if let Some(event) = event {
-                            // If we get here and peripheral_event were already filled, we would
-                            // end up with the problem that only one event can be reported.
-                            //
-                            // However, lucky for us, this should never occur.  The only peripheral
-                            // event we can receive in transmit_telegram() is the Offline event and
-                            // there can never be a situation where multiple peripherals go offline
-                            // in the same poll cycle.
-                            assert!(peripheral_event.is_none());
                             peripheral_event = Some((handle, event));
                         }
 
@@ -348,6 +340,17 @@ impl<'a> crate::fdl::FdlApplication for DpMaster<'a> {
                             self.state.last_events = DpEvents {
                                 cycle_completed: true,
                                 peripheral: peripheral_event,
+                            };
+                            return None;
+                        }
+
+                        if peripheral_event.is_some() {
+                            // Only one peripheral event can be reported per poll.  End our turn
+                            // here so a second peripheral going offline in the same cycle is
+                            // reported on the next turn instead of being lost.
+                            self.state.last_events = DpEvents {
+                                peripheral: peripheral_event,
+                                ..Default::default()
                             };
                             return None;
                         }
